@@ -227,9 +227,34 @@ func (s *Storage) CheckRecipientExists(recipient string) (bool, error) {
 		return false, err
 	}
 
-	// In multi-domain mode, we should also check the domain
-	// For now, just check if the username exists in any domain
-	return s.CheckUserExists(username)
+	domain, err := parser.ExtractDomain(recipient)
+	if err != nil {
+		return false, err
+	}
+
+	sharedDB := s.dbManager.GetSharedDB()
+
+	// A role mailbox address is a valid recipient: DeliverMessage files it in the role mailbox
+	isRole, err := db.RoleMailboxExists(sharedDB, recipient)
+	if err != nil {
+		return false, err
+	}
+	if isRole {
+		return true, nil
+	}
+
+	// Otherwise the user must exist, enabled, in the recipient's domain (the same
+	// user name in another domain is a different mailbox)
+	var count int
+	err = sharedDB.QueryRow(`
+		SELECT COUNT(*) FROM users u JOIN domains d ON d.id = u.domain_id
+		WHERE u.username = ? AND d.domain = ? AND u.enabled = ? AND d.enabled = ?
+	`, username, domain, true, true).Scan(&count)
+	if err != nil {
+		return false, err
+	}
+
+	return count > 0, nil
 }
 
 // GetUserQuota retrieves the current quota usage for a user
